@@ -88,10 +88,10 @@ type rrConn struct {
 	blocked string // "", "write", "read": where the exchange goroutine is parked
 }
 
-func (c *rrConn) LocalAddr() net.Addr                { return fakeAddr{} }
-func (c *rrConn) RemoteAddr() net.Addr               { return fakeAddr{} }
-func (c *rrConn) SetDeadline(time.Time) error        { return nil }
-func (c *rrConn) SetWriteDeadline(time.Time) error   { return nil }
+func (c *rrConn) LocalAddr() net.Addr              { return fakeAddr{} }
+func (c *rrConn) RemoteAddr() net.Addr             { return fakeAddr{} }
+func (c *rrConn) SetDeadline(time.Time) error      { return nil }
+func (c *rrConn) SetWriteDeadline(time.Time) error { return nil }
 func (c *rrConn) SetReadDeadline(t time.Time) error { // exitIdle's "is it closed" probe
 	c.mu.Lock()
 	defer c.mu.Unlock()
